@@ -17,7 +17,7 @@
     markup_attrs_conservative
     flat_cache_inv_initial flat_cache_inv_preserved flat_cache_inv flat_cache_entry_bindings_only
     flatten_cache_irrelevant_full flatten_cached_is_xml_flatten flat_cache_stale_entry_violates_inv
-    flat_cache_typed_key_collision_witness ser_cache_irrelevant_full
+    flat_cache_typed_key_collision_witness ser_cache_irrelevant_full lite_flatten_is_xml_flatten
 -/
 import Genshi.Lemmas.Output
 import Genshi.Lemmas.OutputFlatten
@@ -27,6 +27,7 @@ import Genshi.Lemmas.OutputWsGlobal
 import Genshi.Lemmas.OutputSafeText
 import Genshi.Lemmas.OutputMarkupAttr
 import Genshi.Lemmas.OutputFlattenCacheC
+import Genshi.Lemmas.OutputFlattenLiteFull
 import Genshi.Model.OutputPipeline
 import Genshi.Model.OutputFlatPipeline
 namespace Genshi.Props.C09
@@ -294,6 +295,28 @@ theorem render_cache_irrelevant (m : Method) (strip : Bool) (dt : Option DocType
 
 example : render .html { strip := false, cache := true } [.start ⟨[], ['p']⟩ [], .text ['<'] false, .end_ ⟨[], ['p']⟩]
     = some ['<', 'p', '>', '&', 'l', 't', ';', '<', '/', 'p', '>'] := by decide
+
+/-- The lite flattener (the one inside `render`, `Model/OutputFlattenLite.lean`) is property C02's
+    full flattener restricted to its domain: whenever it answers `some out` — with or without its
+    cache —, `out` is `Xml.flatten pref` of the same events through the adapters `toX` / `ofXF`, for
+    EVERY preferred-prefix mapping (on the lite domain no prefix is ever made up).  Hence, with
+    `flatten_cached_is_xml_flatten`, also the output of the full filter with its cache.
+    Hypothesis: no element namespace is the reserved string U+0000, which C02's model reads as
+    Python's `None` (a QName never has that namespace). -/
+theorem lite_flatten_is_xml_flatten (m : Method) (c : Bool) (pref : List (Str × Str)) (evs : List QEv)
+    (out : List FEv) (hok : ∀ e ∈ evs, tagOk e = true) (h : flatten c (flatInit m) evs = some out) :
+    (Xml.flatten pref (evs.map toX)).map ofXF = out := by
+  have h' : flatten false (flatInit m) evs = some out := by
+    cases c
+    · exact h
+    · rw [← flatten_cache_irrelevant]; exact h
+  exact flatten_lift pref evs (flatInit m) Xml.FSt.init out (rel_init m) hok h'
+
+example : flatten true (flatInit .xhtml)
+    [.start ⟨xhtmlNs, ['p']⟩ [(⟨xmlNs, ['l','a','n','g']⟩, ['e','n'])], .empty ⟨xhtmlNs, ['b']⟩ [], .empty ⟨[], ['i']⟩ [],
+     .end_ ⟨xhtmlNs, ['p']⟩] =
+    some [.start ['p'] [(xmlns, xhtmlNs), (['x','m','l',':','l','a','n','g'], ['e','n'])], .empty ['b'] [],
+          .empty ['i'] [(xmlns, [])], .end_ ['p']] := by decide
 
 /-! ### what the constructors pass on (generated tables) -/
 
